@@ -892,6 +892,47 @@ def _callers_bound(F, b, param, w):
     return True
 
 
+def check_size_hint_arithmetic(ctx, F):
+    """`Iterator::size_hint` of a caller's iterator is an arbitrary number: every unbounded std iterator (`0..`, `repeat`, `cycle`)
+    reports a lower bound of usize::MAX.  An overflow-checked `+` / `*` on it panics in debug builds and wraps in release builds,
+    where the function then carries on - arithmetic that is only "correct" because release builds wrap.  Rule: no overflow check
+    (the assertion rustc emits for a plain operator) has an operand derived from a size_hint; saturating / wrapping / checked
+    operations are explicit and pass."""
+    n = 0
+    bad = {}
+    for b in F.bodies:
+        if b.promoted is not None or b.derived or '::tests::' in b.defpath or b.defpath.startswith(('pybindings', '<pybindings')) or b.dk not in ('Fn', 'AssocFn', 'Closure'):
+            continue
+        if not any((callee_def(t) or '').endswith('Iterator::size_hint') for _, t in b.calls()):
+            continue
+        # crate-local iterators forward their own size_hint from a field: only functions that take the iterator from a caller count
+        if b.impl_trait == 'core::iter::Iterator':
+            continue
+        try:
+            _, paths = rules.evaluate(b)
+        except Exception:
+            continue
+        sites = {}
+        for r in paths or []:
+            for e in r.events:
+                if e['kind'] != 'ovf_check':
+                    continue
+                if sym.contains(e['cond'], lambda x: isinstance(x, tuple) and x and x[0] == 'call' and str(x[1]).endswith('Iterator::size_hint')):
+                    sites[e['span'].split('-')[0]] = e.get('msg')
+        uses = sum(1 for _, t in b.calls() if (callee_def(t) or '').endswith('Iterator::size_hint'))
+        n += 1
+        key = 'R9/size-hint-arithmetic/' + b.defpath
+        role = 'a caller iterator\'s size_hint enters no overflow-checked arithmetic'
+        ctx.touch(b)
+        if sites:
+            where, msg = sorted(sites.items())[0]
+            ctx.bad('R9', role, b.defpath, '%d overflow-checked operation(s) (%s) on a size_hint of a caller-supplied iterator: for an unbounded iterator the bound is usize::MAX, so a debug build panics here while a release build wraps and carries on with the wrapped value' % (len(sites), msg), key=key, loc=where)
+        else:
+            ctx.ok('R9', role, b.defpath, '%d size_hint call(s); none of their results reaches a plain `+`, `-` or `*`' % uses, key=key)
+    ctx.extra['size_hint_users'] = n
+    ctx.floor('R9', 'floor: functions that read a size_hint', 'crate', n, 4, 'only %d functions read the size_hint of an iterator' % n, key='R9/floor/size-hint-arithmetic')
+
+
 def check_const_shift_bounded(ctx, F):
     """A built-in shift of a concrete integer by a const generic parameter (`1usize << PRECISION`) overflows when the parameter
     reaches the width of the integer: a panic in debug builds, a masked shift (1 << 0) in release builds - arithmetic that is only
@@ -995,6 +1036,7 @@ def run(ctx):
     check_strict_producers(ctx, F)
     check_validators_fetch_once(ctx, F)
     check_const_shift_bounded(ctx, F)
+    check_size_hint_arithmetic(ctx, F)
     import props.C05 as c05
     c05.check_cdf_search_extent(ctx, F)      # the TRUSTED-DATA rows of the searched decoders say 'the search lands in 1..len-1': true only for a search that excludes the last entry
     n_cursor_unsafe = sum(1 for s in unsafe_sites(F) if s['body'].file.endswith('backends.rs'))
